@@ -844,6 +844,7 @@ class _Execution:
         )
         for kind, areas, by_number, number_of, own_number in getters:
             previous = None
+            previous_head = None
             for i, area in enumerate(areas):
                 try:
                     number = number_of(area)
@@ -866,6 +867,16 @@ class _Execution:
                                      f"{[loc_parts(a.location) for a in areas]}", sig=f"order:{kind}")
                         return
                     previous = parts[0][0]
+                elif crosses(parts) and len(parts) == 2:
+                    # areas over the origin are ordered by where they start before the origin (an area containing
+                    # another starts no later than it, so the containment rule cannot reverse this)
+                    head = max(part[0] for part in parts)
+                    if previous_head is not None and head < previous_head:
+                        self.violate("C06-a", f"{kind} list not in location order (areas over the origin are ordered by "
+                                     f"their start before the origin): {[loc_parts(a.location) for a in areas]}",
+                                     sig=f"order-over-origin:{kind}")
+                        return
+                    previous_head = head
         # numbers shown on parents identify their members
         for cand in cands:
             for proto in cand.protoclusters:
